@@ -4,10 +4,11 @@ META = {'bounds': 'glue: fresh gzip / deflate / lzma decompressor, chunks of <= 
         'assumptions': ['zlib and LzmaDec are contract stubs: a call is offered the unconsumed tail of the current chunk, consumes 0..avail_in, produces 0..avail_out, Z_OK implies progress', 'htp_gzip_decompressor_create/destroy are counting stubs in the layers obligations', 'hooks return a symbolic OK/ERROR'], 'trusted_base': ['harness/tx/decomp.c', 'harness/decomp/glue.c']}
 U = ['bstr.c', 'htp_util.c', 'htp_utf8_decoder.c']
 KN = {'gzip': 0, 'deflate': 1, 'lzma': 2, 'x': 3, 'none': 4}
-def layers(toks, spc=0, tier='quick'):
+def layers(toks, spc=0, tier='quick', failk=None):
     d = {'FUNC': 2, 'FA_CAP': 32, 'NTOK': len(toks), 'SPC': spc}
+    if failk is not None: d['FAILK'] = failk
     for i in range(3): d['K%d' % i] = KN[toks[i]] if i < len(toks) else 0
-    return Ob('decomp.layers.' + '_'.join(toks) + '.sp%d' % spc, 'tx/decomp.c', units=U, models=['@libc_model.c', '@fixed_alloc.c'], remove=['htp_log', 'bstr_alloc', 'bstr_expand', 'htp_req_run_hook_body_data', 'htp_res_run_hook_body_data'], defines=d,
+    return Ob('decomp.layers.' + '_'.join(toks) + '.sp%d' % spc + ('' if failk is None else '.fail%d' % failk), 'tx/decomp.c', units=U, models=['@libc_model.c', '@fixed_alloc.c'], remove=['htp_log', 'bstr_alloc', 'bstr_expand', 'htp_req_run_hook_body_data', 'htp_res_run_hook_body_data'], defines=d,
               unwind=24, unwindset=['strlen.0:40', 'memcmp.0:2000', 'harness.0:2000'], tier=tier, timeout=600, mem_gb=8,
               statement='decompressor chain built from Content-Encoding: length <= layer limit, lzma within its limit, stale decompressor released first, nothing when decompression is disabled',
               bounds='Content-Encoding "%s" (SP-after-comma mask %d), layer limit 0..3, lzma limit 0..2, decompression enabled/disabled, stale decompressor present/absent (all symbolic)' % (', '.join(toks), spc))
